@@ -5,7 +5,7 @@
    Only statements; every proof is `exact <lemma>`. *)
 From Coq Require Import List ZArith QArith Qcanon Bool Arith.
 From Dimod Require Import Base.Util Model.Poly Model.Comb Gen.Gen_Gates Model.Gates
-  Proofs.GatesFacts Props.Comb Model.Knap Proofs.KnapFacts Model.MultCircuit Proofs.MultFacts Model.Qap Proofs.QapFacts Model.Magic Proofs.MagicFacts.
+  Proofs.GatesFacts Props.Comb Model.Knap Proofs.KnapFacts Model.MultCircuit Proofs.MultFacts Model.Qap Proofs.QapFacts Model.Magic Proofs.MagicFacts Model.Sat Proofs.SatFacts.
 Import ListNotations.
 
 (* energy 0 on exactly the rows of the truth table, >= 1 on every other row (strength 1) *)
@@ -136,6 +136,16 @@ Theorem C17_bin_packing_feasible :
 Proof. exact bp_feasible. Qed.
 Print Assumptions C17_bin_packing_feasible.
 
+Theorem C17_bin_packing_feasible_bool :
+  forall weights capacity (x : sample) (place : nat -> nat -> bool),
+    let n := length weights in
+    (forall i j, (i < n)%nat -> (j < n)%nat -> x (bp_x n i j) = if place i j then 1%Qc else 0%Qc) ->
+    (feasibleb (bp_model weights capacity) x = true
+     <-> (forall i, (i < n)%nat -> count_ones n (place i) = 1%nat) /\
+         (forall j, (j < n)%nat -> (bp_load weights n x j <= capacity * x (bp_y j))%Qc)).
+Proof. exact bp_feasible_bool. Qed.
+Print Assumptions C17_bin_packing_feasible_bool.
+
 (* on 0/1 assignments "the row sums to 1" is "exactly one entry is 1" *)
 Theorem C17_exactly_one :
   forall n (f : nat -> bool),
@@ -255,6 +265,34 @@ Theorem C17_magic_uniqueness_not_sufficient_refuted :
   magic_feasibleb 3 1 (zsample latin3) = true /\ nth 0 latin3 0%Z = nth 5 latin3 0%Z.
 Proof. exact magic_uniqueness_not_sufficient_refuted. Qed.
 Print Assumptions C17_magic_uniqueness_not_sufficient_refuted.
+
+(* ---------- satisfiability generators (Model/Sat.v): the assembly; the draws are monitored ---------- *)
+(* a clause of k literals +-1 contributes ((sum of literals)^2 - k) / 2 *)
+Theorem C17_clause_energy :
+  forall l, Forall (fun x => x = 1 \/ x = -1)%Z l ->
+    (2 * pair_sum l = zsum l * zsum l - Z.of_nat (length l))%Z.
+Proof. exact clause_energy_pm1. Qed.
+Print Assumptions C17_clause_energy.
+
+Theorem C17_nae3_clause :
+  forall a b c,
+    (pair_sum [lit a; lit b; lit c] = -1 <-> ~ (a = b /\ b = c))%Z /\
+    ((a = b /\ b = c) -> pair_sum [lit a; lit b; lit c] = 3)%Z.
+Proof. exact nae3_clause. Qed.
+Print Assumptions C17_nae3_clause.
+
+Theorem C17_2in4_clause :
+  forall a b c d,
+    (pair_sum [lit a; lit b; lit c; lit d] = -2 <-> count4 a b c d = 2%nat)%Z /\
+    (count4 a b c d <> 2%nat -> 0 <= pair_sum [lit a; lit b; lit c; lit d])%Z.
+Proof. exact twoin4_clause. Qed.
+Print Assumptions C17_2in4_clause.
+
+(* the BQM assembled from any list of clauses has the sum of the clause energies *)
+Theorem C17_sat_poly_energy :
+  forall cs (s : nat -> Z), energy (sat_poly cs) (fun v => z2q (s v)) = z2q (sat_energy cs s).
+Proof. exact sat_poly_energy. Qed.
+Print Assumptions C17_sat_poly_energy.
 
 Example C17_ex_fulladder : fulladder_energy [true; true; false; false; true] = 0%Z /\
                            fulladder_energy [true; true; false; true; true] = 1%Z.
